@@ -164,10 +164,15 @@ type Step struct {
 }
 
 type Gen struct {
-	Name      string          `json:"name"`
-	Alias     bool            `json:"alias,omitempty"`      // implements AliasGenerator
-	CustomNew bool            `json:"custom_new,omitempty"` // implements GeneratorNewer
-	Steps     map[string]Step `json:"steps,omitempty"`      // key: "<pkgpath> <type>"
+	Name      string `json:"name"`
+	Alias     bool   `json:"alias,omitempty"`      // implements AliasGenerator
+	CustomNew bool   `json:"custom_new,omitempty"` // implements GeneratorNewer
+	// Proto (only without CustomNew): the value passed to gengo.Register is built by a constructor and carries non-nil
+	// reference fields (a map and a pointer used for the per-package bookkeeping) instead of being a zero value; the
+	// instance gengo creates per package is a zero value, so GenerateType allocates them lazily.  Same behaviour as
+	// the zero-prototype generators when every package really gets a fresh instance.
+	Proto bool            `json:"proto,omitempty"`
+	Steps map[string]Step `json:"steps,omitempty"` // key: "<pkgpath> <type>"
 }
 
 type Job struct {
@@ -330,6 +335,67 @@ func (g *slot3) GenerateType(c gengo.Context, n *types.Named) error {
 	return g.call(slotNames[3], c, n.Obj().Pkg().Path(), n.Obj().Name())
 }
 
+// The same four shapes for generators whose registered prototype comes from a constructor (Gen.Proto): the bookkeeping
+// lives behind a map and a pointer.  A per-package instance made by reflect.New has both nil and allocates its own.
+type pstate struct {
+	seen map[string]bool // (package, type) pairs this instance was called for
+	st   *state
+}
+
+func newPstate() pstate { return pstate{seen: map[string]bool{}, st: &state{}} }
+
+func (p *pstate) call(name string, c gengo.Context, pkg, ty string) error {
+	if p.seen == nil {
+		p.seen = map[string]bool{}
+	}
+	if p.st == nil {
+		p.st = &state{}
+	}
+	p.seen[pkg+" "+ty] = true
+	p.st.count = len(p.seen) - 1 // the call counter is the size of the "already processed" set
+	return p.st.call(name, c, pkg, ty)
+}
+
+type pslot0 struct{ pstate }
+type pslot1 struct{ pstate }
+type pslot2 struct{ pstate }
+type pslot3 struct{ pstate }
+
+func (*pslot0) Name() string { return slotNames[0] }
+func (*pslot1) Name() string { return slotNames[1] }
+func (*pslot2) Name() string { return slotNames[2] }
+func (*pslot3) Name() string { return slotNames[3] }
+func (g *pslot0) GenerateType(c gengo.Context, n *types.Named) error {
+	return g.call(slotNames[0], c, n.Obj().Pkg().Path(), n.Obj().Name())
+}
+func (g *pslot1) GenerateType(c gengo.Context, n *types.Named) error {
+	return g.call(slotNames[1], c, n.Obj().Pkg().Path(), n.Obj().Name())
+}
+func (g *pslot2) GenerateType(c gengo.Context, n *types.Named) error {
+	return g.call(slotNames[2], c, n.Obj().Pkg().Path(), n.Obj().Name())
+}
+func (g *pslot3) GenerateType(c gengo.Context, n *types.Named) error {
+	return g.call(slotNames[3], c, n.Obj().Pkg().Path(), n.Obj().Name())
+}
+
+type apslot0 struct{ pslot0 }
+type apslot1 struct{ pslot1 }
+type apslot2 struct{ pslot2 }
+type apslot3 struct{ pslot3 }
+
+func (g *apslot0) GenerateAliasType(c gengo.Context, n *types.Alias) error {
+	return g.call(slotNames[0], c, n.Obj().Pkg().Path(), n.Obj().Name())
+}
+func (g *apslot1) GenerateAliasType(c gengo.Context, n *types.Alias) error {
+	return g.call(slotNames[1], c, n.Obj().Pkg().Path(), n.Obj().Name())
+}
+func (g *apslot2) GenerateAliasType(c gengo.Context, n *types.Alias) error {
+	return g.call(slotNames[2], c, n.Obj().Pkg().Path(), n.Obj().Name())
+}
+func (g *apslot3) GenerateAliasType(c gengo.Context, n *types.Alias) error {
+	return g.call(slotNames[3], c, n.Obj().Pkg().Path(), n.Obj().Name())
+}
+
 // alias-capable wrappers
 type aslot0 struct{ slot0 }
 type aslot1 struct{ slot1 }
@@ -355,7 +421,7 @@ type newer struct {
 	name string
 }
 
-func (g *newer) Name() string                   { return g.name }
+func (g *newer) Name() string                        { return g.name }
 func (g *newer) New(c gengo.Context) gengo.Generator { return &newer{name: g.name} }
 func (g *newer) GenerateType(c gengo.Context, n *types.Named) error {
 	return g.call(g.name, c, n.Obj().Pkg().Path(), n.Obj().Name())
@@ -376,6 +442,25 @@ func prototype(i int, g Gen) gengo.Generator {
 		return &newer{name: g.Name}
 	}
 	slotNames[i] = g.Name
+	if g.Proto {
+		switch {
+		case g.Alias && i == 0:
+			return &apslot0{pslot0{newPstate()}}
+		case g.Alias && i == 1:
+			return &apslot1{pslot1{newPstate()}}
+		case g.Alias && i == 2:
+			return &apslot2{pslot2{newPstate()}}
+		case g.Alias && i == 3:
+			return &apslot3{pslot3{newPstate()}}
+		case i == 0:
+			return &pslot0{newPstate()}
+		case i == 1:
+			return &pslot1{newPstate()}
+		case i == 2:
+			return &pslot2{newPstate()}
+		}
+		return &pslot3{newPstate()}
+	}
 	switch {
 	case g.Alias && i == 0:
 		return &aslot0{}
